@@ -187,6 +187,9 @@ let run (cmd : string) (a : v list) : string =
   | "bc", [keep; c; fuel; vs] -> pres pzbins (BinCompletion.bin_completion (bool_ keep) (z_ c) (nat_ fuel) (zlist vs))
   | "bcn", [keep; c; fuel; ns; vs] ->
       pres pbins (BinCompletionNamed.bin_completion_named vof (bool_ keep) (z_ c) (nat_ fuel) (items ns vs))
+  | "bc_trace", [keep; c; fuel; vs] ->
+      let (r, tr) = BinCompletionTrace.bin_completion_tr (bool_ keep) (z_ c) (nat_ fuel) (zlist vs) in
+      "[" ^ pres pzbins r ^ "," ^ plist (fun (x, its) -> "[" ^ pz x ^ "," ^ plist pz its ^ "]") tr ^ "]"
   | "fbc", [x; its; c] -> plist (plist pz) (BinCompletion.find_bin_completions (z_ x) (zlist its) (z_ c))
   | "cfd", [ls] -> plist (plist pz) (BinCompletion.check_for_dominance (zlistlist ls))
   | "isdom", [l1; l2] -> pbool (BinCompletion.is_dominant (zlist l1) (zlist l2))
